@@ -70,6 +70,12 @@ CLAIMED = {
     text='For generated rectangular geometries (random spacings/origins, all conventions, atmosphere types, block orders, permeability angles, tilts, rotated/translated, surfaces from just above the bottom layer to above the top layer incl. exactly on layer boundaries, specified column centres) and the shipped irregular geometries with refinements, with and without a random injective block map, the grid returned by the real fromgeo() is compared element by element with an own derivation: block and connection lists against the geometry\'s own name lists (order and orientation), volumes = own shoelace area x height to layer top or surface, total volume = sum of area x depth, horizontal areas = shared-edge length x lower height, distances = perpendicular distances of the column centres from the shared edge, gravity cosines from the centre-to-centre line and the tilt vector, permeability direction from the rotated axes, vertical connections lower-block-first with distances adding up to the centre separation, atmosphere connections with surface-to-centre and atmosphere-connection distances.',
     note='Trusted: vf/oracle/polygeo.py (shoelace relative to the first vertex, point-line distance). Tolerance 1e-9 relative, widened by 4e-16 x (coordinate product / area) for quantities proportional to a column area (float64 conditioning on map coordinates in the millions; largest conditioning number seen is recorded in the evidence). Permeability direction is not judged within 1e-6 of a tie.',
     design='DESIGN.md §3 C04'),
+
+ 'C18': dict(
+    technique='runtime inverse-function monitor: geometry -> real fromgeo -> (optional data-file round trip, optional renaming) -> real rectgeo -> comparison of the reconstructed geometry as sets of (column polygon, surface) and (layer bottom, top), and of fromgeo(reconstruction, block map) with the original grid through the C09 physical signature',
+    text='Rectangular geometries (1-12 x 1-12 x 2-14 blocks, either horizontal direction possibly a single block, random spacings and origins, rotations with permeability direction 1 along the geometry\'s first axis, all atmosphere types and conventions, flat / stepped / sloping surfaces incl. exactly on layer tops, atmosphere volumes 1e25 / 1e50 / 0) are converted by the real fromgeo, optionally written to and re-read from a data file and optionally renamed to unrelated names; the real rectgeo must return a geometry whose columns (matched by position), surfaces, layers and atmosphere arrangement equal the original and a block map under which the real fromgeo regenerates the original block names, volumes and connections (area, direction, per-block distances, orientation).',
+    note='Trusted: comparison code in vf/props/c18.py and the C09 signature. In memory the tolerance is 1e-7 x extent; after a file round trip it is computed from the resolution of the 10.3e centre fields (translation + rotation lever arm) and the 10.4e distance/volume fields. The remove_inactive=True option with demoted zero-volume blocks is not exercised (zero-volume atmosphere blocks are).',
+    design='DESIGN.md §3 C18'),
 }
 
 def main():
